@@ -940,6 +940,31 @@ func checkCase(c Case, prop string, r *rng.R, st *stats) []failure {
 		}
 	}
 	// repeated pointers are counted once per occurrence above (files lists them twice): fine, upper bound
+	// the same per routing pair (output files never span pairs, so a limit the content of ONE pair stays below cannot
+	// bind for that pair, whatever the other pairs hold): exactly one output file carries the pair
+	{
+		routeLines, routeAmount, routeOut := map[string]int{}, map[string]int64{}, map[string]int{}
+		for _, id := range in {
+			routeAmount[id.route] += int64(id.amount)
+		}
+		for _, f := range files {
+			rt := f.Header.ImmediateOrigin + ">" + f.Header.ImmediateDestination
+			if routeLines[rt] == 0 {
+				routeLines[rt] = 2
+			}
+			for _, bt := range f.Batches {
+				routeLines[rt] += 2 + bt.GetControl().EntryAddendaCount
+			}
+		}
+		for _, f := range out {
+			routeOut[f.Header.ImmediateOrigin+">"+f.Header.ImmediateDestination]++
+		}
+		for rt, n := range routeOut {
+			if n > 1 && routeLines[rt] > 0 && (c.MaxLines <= 0 || c.MaxLines >= routeLines[rt]) && (c.MaxDollar < 0 || routeAmount[rt] <= effDollar) {
+				fail("maximal:pair-split-though-no-limit-binds-for-it", fmt.Sprintf("%d output files for the routing pair %s whose whole content (at most %d records, %d cents) is within MaxLines %d / MaxDollarAmount %d", n, rt, routeLines[rt], routeAmount[rt], c.MaxLines, effDollar))
+			}
+		}
+	}
 	if (c.MaxLines <= 0 || c.MaxLines >= totalLines) && (c.MaxDollar < 0 || totalAmount <= effDollar) {
 		want := map[string]bool{}
 		for _, id := range in {
